@@ -54,6 +54,14 @@ def judge(chk, stream, cases, a, sigf):
 
 
 def run(chk):
+    progs_i, li = interaction_stream(chk)
+    sc_i = scan_comments(li, list(li))
+    for t_, l_ in li.items():
+        k_, v_ = outcome(l_)
+        if k_ != 'ok' or sc_i.get(t_) is None: continue
+        got_ = [(c['pos'], c['text']) for c in v_['comments']]
+        if got_ != sc_i[t_]:
+            chk.oracle_fail('comments-vs-scan', 'file', t_, got_[:8], sc_i[t_][:8], 'File::comments is not the list of comment tokens of the source (offset, text, order, each once)')
     rng = random.Random(chk.seed)
     chk.rule = ('scan mode (hook H1). Stream pairs: every ordered pair of the %d representative tokens x 6 separators (exhaustive); '
                 'stream literal-forms: one literal for every branch of the literal productions alone, beside 18 neighbours x 3 separators, and in pairs; stream random: token sequences of 3-12 tokens with random separators. A case is non-trivial when the reference lexer '
